@@ -82,8 +82,9 @@ def run_monitor(cmd_prefix, cases, impl_lines, workdir, nshards=None):
             f.write("".join(c + "\n" for c in cs))
         with open(jf, "w") as f:
             f.write("".join((x if x is not None else "") + "\n" for x in il))
-        p = subprocess.run(cmd_prefix + [cf, jf], stdout=subprocess.PIPE, stderr=subprocess.PIPE, text=True,
-                           errors="replace")
+        # the extracted monitors / the OCaml trace parser recurse over the trace: long traces need a deep stack
+        p = subprocess.run(["/bin/sh", "-c", 'ulimit -s unlimited 2>/dev/null || ulimit -s 1048576 2>/dev/null; exec "$@"', "sh"]
+                           + cmd_prefix + [cf, jf], stdout=subprocess.PIPE, stderr=subprocess.PIPE, text=True, errors="replace")
         outs = p.stdout.split("\n")
         if outs and outs[-1] == "":
             outs = outs[:-1]
